@@ -27,7 +27,7 @@ def tla_desc_to_py(d: dict) -> dict:
                       "defaults": {p: v for p, v in f["defaults"]}, "bound": {p: v for p, v in f["bound"]},
                       "mapspec": None, "internal_shape": list(f.get("internal", [])), "cache": bool(f.get("cache", False)),
                       "renamed": list(f.get("renamed", [])),
-                      "retnone": bool(f.get("retnone", False)), "outperm": bool(f.get("outperm", False)),
+                      "retnone": bool(f.get("retnone", False)), "rettuple": bool(f.get("rettuple", False)), "outperm": bool(f.get("outperm", False)),
                       "outrenamed": bool(f.get("outrenamed", False)), "picker": bool(f.get("picker", False)), "hook": bool(f.get("hook", False)), "dataclass": bool(f.get("dataclass", False)), "annot": f.get("annot") or ""})
     return {"funcs": funcs}
 
